@@ -60,13 +60,18 @@ def run(ck):
     tables = [('all-axes', Table(5, missing={'a': {2}})), ('time-only', Table(5, missing={'a': {2}}, with_axes=('time',))),
               ('unsorted-times', Table(5, missing={'a': {2}}, time_order=[2, 0, 4, 1, 3])),
               # instants off the whole second, time given to NumpyStream as epoch seconds (floats); windows that end between two stamps
-              ('sub-second-epoch', Table(5, missing={'a': {2}}, time_offset=Fr(3, 4), time_carrier='epoch_float'))]
+              ('sub-second-epoch', Table(5, missing={'a': {2}}, time_offset=Fr(3, 4), time_carrier='epoch_float')),
+              # two stream ids that are equal once made CF-safe (the stores' column labels would clash; the collected results must not)
+              ('cf-clashing-ids', Table(5, streams=('w temp', 'w_temp'), missing={'w temp': {2}, 'w_temp': {0}}))]
     half = Fr(1, 2)
     lite = {'a': ['gross', 'spike'], 'b': ['valid']}
     frac_layouts = [('sub-second-edges', [dict(window=(t(0), t(2, half)), tests=lite), dict(window=(t(2, half), t(5)), tests=lite)]),
                     ('sub-second-gap', [dict(window=(t(0, half), t(1, half)), tests=lite), dict(window=(t(3, half), t(4, half)), tests=lite)])]
+    clash_tests = {'w temp': ['gross', 'spike'], 'w_temp': ['gross', 'valid']}
+    clash_layouts = [('two-contexts', [dict(window=(t(0), t(2)), tests=clash_tests), dict(window=(t(2), t(5)), tests=clash_tests)]),
+                     ('single-partial', [dict(window=(t(1), t(4)), tests=clash_tests)])]
     for tname, table in tables:
-        for lname, contexts in (layouts(thorough) if tname != 'sub-second-epoch' else frac_layouts):
+        for lname, contexts in (frac_layouts if tname == 'sub-second-epoch' else clash_layouts if tname == 'cf-clashing-ids' else layouts(thorough)):
             if tname == 'unsorted-times':
                 # flat_line_test derives its window from the median time step, which is meaningless for unsorted rows
                 contexts = [dict(c, tests={sid: ['valid' if k == 'flat' else k for k in keys] for sid, keys in c['tests'].items()}) for c in contexts]
